@@ -70,9 +70,10 @@ LAYOUT = ["RegionLayout::*", "DatabaseLayout::*", "round_up_to_multiple_of", "le
 
 reg = {
     "units": {
-        "alloc": {"overlay": "units/alloc.ovl", "canaries": ["canary_alloc"],
+        # rlimit 40: the two loops of alloc_lowest need 5-32 M resource units depending on solver-internal naming (default limit 10 = 30 M)
+        "alloc": {"overlay": "units/alloc.ovl", "canaries": ["canary_alloc"], "rlimit": 40,
                   # executable functions defined in the overlay rather than extracted from /repo: rule helpers (T4)
-                  "helpers": ["xxh3_checksum", "div_ceil_u32", "pow2_u32", "vec_reverse", "min_u8", "max_u32", "min_u32", "pow2_u64", "max_u64",
+                  "helpers": ["xxh3_checksum", "div_ceil_u32", "pow2_u32", "vec_reverse", "min_u8", "max_u32", "min_u32", "pow2_u64", "max_u64", "fmt_msg", "from", "contains",
                               # models of what the page-manager protocol functions call into (Mutex, storage trace, unpersisted set)
                               "lock", "drop", "gt_id", "clone", "check_io_errors", "flush", "resize", "sync_file", "close", "write_barrier",
                               "invalidate_cache", "cancel_pending_write", "clear", "extend", "claim", "remove", "write_header",
@@ -152,11 +153,11 @@ P["C14"] = {
 P["C20"] = {
     "level": "proof",
     "verus": [{"unit": "alloc", "functions": LAYOUT + ["BuddyAllocator::trailing_free_pages", "BuddyAllocator::find_free_order", "PageNumber::*",
-                                              "TransactionalMemory::try_shrink", "TransactionalMemory::grow", "TransactionalMemory::commit", "TransactionalMemory::close", "Mutex::lock", "drop", "max_u64", "InMemoryState::get_region", "InMemoryState::allocators", "InMemoryState::allocators_mut",
+                                              "TransactionalMemory::try_shrink", "TransactionalMemory::grow", "TransactionalMemory::commit", "TransactionalMemory::close", "TransactionalMemory::mark_page_allocated", "TransactionalMemory::check_page_order", "Mutex::lock", "drop", "max_u64", "InMemoryState::get_region", "InMemoryState::allocators", "InMemoryState::allocators_mut",
                                               "DatabaseHeader::*", "Allocators::resize_to", "Allocators::lemma_resize_shrink", "Allocators::lemma_grow_step_*", "lemma_pow2_shift"]}],
     "kani": [K["C20-L1"], K["C20-L2a"], K["C20-L2b"], K["C20-L3a"], K["C20-L3b"]],
     "explanation": "Kernel: (A1) every page of every region of a valid layout ends inside layout.len() (lemma_page_in_bounds over the real layout.rs accessors); (A2) reduce_last_region shortens the layout by exactly the pages cut (plus the region header when the region disappears) and recalculate(file_len) never extends past the file; (A3) calculate(d) offers at least d usable bytes; (A4) never shrinks below a page still in use: the pages trailing_free_pages reports are all free, and the REAL try_shrink cuts at most those pages from the last region (reduce_last_region), hands resize_to a layout whose removed pages are all free, keeps the allocator state consistent with the header layout, and never lengthens the layout; the REAL TransactionalMemory::commit truncates the file (storage.resize) only after the header carrying the shorter layout has been written and synced, to exactly that layout's length; the REAL TransactionalMemory::grow extends the file to exactly the new layout's length and syncs it BEFORE the allocator state and the header adopt the larger layout, leaves the state untouched when either step fails, never shortens the layout, makes room for the allocation that asked for it, and keeps every region but the last as it was; the REAL TransactionalMemory::close reaches the backend's close() exactly once, as the last event, also when the shutdown writes failed; (L1) the I/O-failure latch is inductive and nothing reaches the backend once it is set; (L2) close() reaches the backend once and nothing afterwards; (L3) the read-only wrapper forwards no mutation.",
-    "not_decided": "'exactly once' across Database / transaction hand-off on threads; failing opens through Builder; page numbers followed from a corrupted branch page; flush_shutdown_header (assumed not to close the backend); allocate_helper's call of grow (it holds the state lock across the call)",
+    "not_decided": "'exactly once' across Database / transaction hand-off on threads; failing opens through Builder; page numbers followed from a corrupted branch page on the READ path (get_page; mark_page_allocated validates the page numbers of the rebuild against the layout); flush_shutdown_header (assumed not to close the backend); allocate_helper's call of grow (it holds the state lock across the call)",
 }
 P["C08"] = {
     "level": "proof",
@@ -208,10 +209,10 @@ P["C06"] = {
     "verus": [{"unit": "alloc", "functions": ["BuddyAllocator::alloc", "BuddyAllocator::alloc_inner", "BuddyAllocator::free", "BuddyAllocator::free_inner",
                                               "BuddyAllocator::record_alloc", "BuddyAllocator::record_alloc_inner", "BuddyAllocator::new", "BS::*",
                                               "InMemoryState::allocate_helper_retry", "TransactionalMemory::free_helper", "TransactionalMemory::free", "TransactionalMemory::free_if_unpersisted",
-                                              "TransactionalMemory::claim_unpersisted", "Mutex::lock", "lemma_*"]}],
+                                              "TransactionalMemory::claim_unpersisted", "PageAllocator::*", "Mutex::lock", "lemma_*"]}],
     "kani": [K["C06-K1"], K["C06-K2"], alias("C10-F6a", "C06-K1b")],
     "native": [dict(NATIVE["X-unp3"], id="C06-X-unp3"), dict(NATIVE["X-unp4"], id="C06-X-unp4"), dict(NATIVE["X-pins3"], id="C06-X-pins3"), dict(NATIVE["X-pins4"], id="C06-X-pins4")],
-    "explanation": "Kernel: no block is handed out twice (alloc returns a subset of the free set and removes exactly it - shared with C14); freed-page records are keyed (transaction, page) lexicographically so the reclaimer's range ..(free_until, 0) can never contain a record of a transaction >= free_until; the page-list record returns what was stored; the REAL free_if_unpersisted releases a page at once only when it is in the unpersisted set (allocated by a non-durable commit, so no durable root names it), removes it from that set together with the release, and otherwise changes nothing; free_helper (whole function) makes exactly the block's pages free in its region and touches neither the header, nor another region, nor the storage.",
+    "explanation": "Kernel: no block is handed out twice (alloc returns a subset of the free set and removes exactly it - shared with C14); freed-page records are keyed (transaction, page) lexicographically so the reclaimer's range ..(free_until, 0) can never contain a record of a transaction >= free_until; the page-list record returns what was stored; the REAL free_if_unpersisted releases a page at once only when it is in the unpersisted set (allocated by a non-durable commit, so no durable root names it), removes it from that set together with the release, and otherwise changes nothing; the REAL PageAllocator::conditional_free / free_if_uncommitted release a page at once only when this transaction allocated it since its last commit (no committed root can name it) and otherwise queue it, exactly once, for the commit without touching the allocator; free_helper (whole function) makes exactly the block's pages free in its region and touches neither the header, nor another region, nor the storage.",
     "not_decided": "the accounting equation over histories, readers and savepoints; conditional_free; the in-memory bookkeeping only BOUNDED (native, never counted as proved): UnpersistedState (allocations_after(t) returns exactly the allocations of later transactions, claim drops page and record together, data_freed_in_range / drop_data_freed_after bounds) and the TransactionTracker pin counts that define the oldest live reader",
 }
 P["C07"] = {
@@ -231,9 +232,11 @@ P["C11"] = {
     "level": "proof",
     "native": [dict(NATIVE["X-ser"], id="C11-X-ser"), dict(NATIVE["X-trk-ser"], id="C11-X-trk-ser"), dict(NATIVE["X-resize"], id="C11-X-resize"), dict(NATIVE["X-pins3"], id="C11-X-pins3")],
     "verus": [{"unit": "alloc", "functions": ["BuddyAllocator::record_alloc", "BuddyAllocator::record_alloc_inner", "BS::*", "lemma_*", "Allocators::new", "RegionTracker::new", "BuddyAllocator::new",
-                                              "Allocators::resize_to", "Allocators::lemma_*", "DatabaseLayout::recalculate", "DatabaseHeader::layout", "DatabaseHeader::set_layout"]}],
+                                              "Allocators::resize_to", "Allocators::lemma_*", "DatabaseLayout::recalculate", "DatabaseHeader::layout", "DatabaseHeader::set_layout",
+                                              "TransactionalMemory::mark_page_allocated", "TransactionalMemory::reset_allocator_state", "TransactionalMemory::check_page_order",
+                                              "InMemoryState::get_region_mut", "Mutex::lock"]}],
     "kani": [K["C11-R3"]],
-    "explanation": "Kernel: rebuild = reset + one record_alloc per reachable page; record_alloc marks exactly the named block (true iff the block lay inside a free block, which it then no longer does, every other page keeps its state) or refuses with the allocator unchanged, I1 and I2 preserved; (R4) Allocators::resize_to - the reconciliation of a loaded allocator state with the layout of the file being opened - gives every region the size the layout says, keeps wf and TRK, marks dropped regions full and leaves unchanged regions untouched (against assumed contracts of the resize family); the allocator-state key codec orders Region(i) by i and before the tracker and the transaction id, which the snapshot loader's range scans rely on.",
+    "explanation": "Kernel: rebuild = reset + one mark per reachable page. The REAL TransactionalMemory::reset_allocator_state leaves an allocator state that matches the header's layout with EVERY page free (Allocators::new, BuddyAllocator::new: greedy decomposition, lemma_greedy_all_free); the REAL TransactionalMemory::mark_page_allocated accepts a page number only if it names a block inside an existing region of the layout that was entirely free, then exactly its pages stop being free, every other region is untouched and the state stays consistent with the header; a refused page number (order > 20, region or block out of range, overlap with an allocated page) changes no allocator. record_alloc marks exactly the named block (true iff the block lay inside a free block, which it then no longer does, every other page keeps its state) or refuses with the allocator unchanged, I1 and I2 preserved; (R4) Allocators::resize_to - the reconciliation of a loaded allocator state with the layout of the file being opened - gives every region the size the layout says, keeps wf and TRK, marks dropped regions full and leaves unchanged regions untouched (against assumed contracts of the resize family); the allocator-state key codec orders Region(i) by i and before the tracker and the transaction id, which the snapshot loader's range scans rely on.",
     "not_decided": "which pages ARE reachable; is_valid_allocator_state's staleness comparison (needs a B-tree); histories and crash points; the tracker's persistent-savepoint pins rebuilt at open (register_persistent_savepoint: one pin per savepoint, also when several savepoints share a transaction) only BOUNDED (native C11-X-pins3)",
 }
 P["C15"] = {
